@@ -1,3 +1,3 @@
 import Driver.Proto
-open Lean
-def main : IO Unit := Driver.run (fun _ => Driver.jerr "not implemented")
+import Driver.Cfg
+def main : IO Unit := Driver.run Driver.Cfg.handle
